@@ -34,7 +34,7 @@ m = {
         "guard": "libhaystack_verif",
         "enable": "RUSTFLAGS=\"--cfg libhaystack_verif\" (set by ./check for every harness build)",
         "baseline_off_cmd": "cd /repo && cargo test --workspace --no-fail-fast --offline",
-        "source_commits": [],
+        "source_commits": ["4b31ef5"],
         "add_only": True,
     },
     "engines": [{
